@@ -19,5 +19,6 @@ void *w_creader_new(const char *p, size_t n);
 void w_creader_del(void *r);
 long w_creader_readline(void *r, const char **token);
 int w_creader_skip(void *r, const char *symbols);
+int w_creader_skipws(void *r);
 int w_creader_end(void *r);
 long w_creader_curpos(void *r);
